@@ -419,6 +419,10 @@ def filt_body(case):
         if mask is not None:
             f1b = f1.copy()
             f1b[mask != 0] = 1e6 * (1 + u2[mask != 0])
+            if case['seed'] % 3 == 0:
+                # round 12: what bad pixels often hold - NaN / infinities
+                f1b[mask != 0] = np.where(u2[mask != 0] < 0.4, np.nan, np.where(u2[mask != 0] < 0.7, np.inf, -np.inf))
+                note_label('non-finite-values-under-the-mask')
             r1b = run(f1b)
             live = [t for t in range(ntr) if t != dead]
             check(bool(np.all(np.abs(r1b - r1)[live] <= 1e-9 * sc)), 'filter:depends-on-masked-pixel-values', lambda: dict(maxdev=float(np.abs(r1b - r1)[live].max())))
